@@ -7,6 +7,7 @@ kind of each statement depends on unported primaries) — decided per program by
 oracle on the real pipeline.
 -/
 import NormModel.Properties.C03
+import NormModel.Properties.C09
 import NormModel.Properties.C04
 import NormModel.Properties.C13
 import NormModel.Properties.C14
@@ -133,6 +134,69 @@ example :
       ⟨"NEWLINE", 3, 4, none, 3, 4⟩]
     (spacingDiagsRun toks [⟨"IsAssignation", 0, 4⟩]).map (fun d => (d.name, d.highlights.map (fun h => (h.line, h.col))))
       = [("SPC_BEFORE_NL", [(3, 3)])] := by decide +kernel
+
+/-- **V45 (several instructions on a line), end to end for every rule table**: in a file lexed from `src` that reaches
+a verdict, a statement matched by one of the primaries after which the registry runs `CheckManyInstructions`
+(assignment, block end, control statement, expression statement, function declaration/prototype, user type, variable
+declaration, function call — read from the regenerated dependency table) and whose first token is NOT the first thing
+on its line gets `TOO_MANY_INSTR` at that token. "Not the first thing on its line" is stated on the raw text
+(`C09.column_one_iff_line_start`). -/
+theorem many_instr_e2e (u : Uni) (src : List Char) (r : LexResult) (hlex : lex u src = .ok r)
+    (t : List Segment) (g : Segment) (hg : g ∈ t) (hrule : runsAfter "CheckManyInstructions" g.rule = true)
+    (tk : Token) (htk : r.tokens[g.start]? = some tk)
+    (hmid : tk.start ≠ 0 ∧ src[tk.start - 1]? ≠ some '\n') :
+    tokDiag "TOO_MANY_INSTR" tk ∈ manyInstrDiagsRun r.tokens t := by
+  have hmem : tk ∈ r.tokens := List.mem_of_getElem? htk
+  have hcol : tk.col ≠ 1 := by
+    intro h1
+    rcases (C09.column_one_iff_line_start u src r hlex tk hmem).mp h1 with h | h
+    · exact hmid.1 h
+    · exact hmid.2 h
+  have hpos : 1 ≤ tk.col := by
+    obtain ⟨hp, _, _⟩ := C09.token_positions u src r hlex tk hmem
+    have hc : tk.col = (Spec.visualPos src tk.start).2 := congrArg Prod.snd hp
+    rw [hc]
+    exact advPos_col_pos (1, 1) _ (by decide)
+  unfold manyInstrDiagsRun
+  refine List.mem_flatMap.mpr ⟨g, hg, ?_⟩
+  unfold manyInstrDiags
+  simp only [hrule, ↓reduceIte, htk]
+  have : 1 < tk.col := by omega
+  simp [this]
+
+/-- … and `CheckManyInstructions` invents nothing: each TOO_MANY_INSTR of the run sits on the first token of a statement
+of one of those kinds, and that token is not the first thing on its line. -/
+theorem many_instr_sound (u : Uni) (src : List Char) (r : LexResult) (hlex : lex u src = .ok r)
+    (t : List Segment) (d : Diag) (hd : d ∈ manyInstrDiagsRun r.tokens t) :
+    ∃ g ∈ t, ∃ tk, r.tokens[g.start]? = some tk ∧ runsAfter "CheckManyInstructions" g.rule = true ∧
+      d = tokDiag "TOO_MANY_INSTR" tk ∧ tk.start ≠ 0 ∧ src[tk.start - 1]? ≠ some '\n' := by
+  unfold manyInstrDiagsRun at hd
+  obtain ⟨g, hg, hdg⟩ := List.mem_flatMap.mp hd
+  unfold manyInstrDiags at hdg
+  split at hdg
+  · rename_i hr
+    split at hdg
+    · rename_i tk htk
+      split at hdg
+      · rename_i hc
+        simp only [List.mem_singleton] at hdg
+        have hmem : tk ∈ r.tokens := List.mem_of_getElem? htk
+        have hiff := C09.column_one_iff_line_start u src r hlex tk hmem
+        refine ⟨g, hg, tk, htk, hr, hdg, ?_, ?_⟩
+        · intro h0; have := hiff.mpr (Or.inl h0); omega
+        · intro h0; have := hiff.mpr (Or.inr h0); omega
+      · cases hdg
+    · cases hdg
+  · cases hdg
+
+/-- Non-vacuity: `a = 1; b = 2;` on one line — the second assignment is reported. -/
+example :
+    let toks : List Token := [⟨"IDENTIFIER", 1, 1, some "a", 0, 1⟩, ⟨"SEMI_COLON", 1, 2, none, 1, 2⟩, ⟨"SPACE", 1, 3, none, 2, 3⟩,
+      ⟨"IDENTIFIER", 1, 4, some "b", 3, 4⟩, ⟨"SEMI_COLON", 1, 5, none, 4, 5⟩, ⟨"NEWLINE", 1, 6, none, 5, 6⟩]
+    (manyInstrDiagsRun toks [⟨"IsAssignation", 0, 3⟩, ⟨"IsAssignation", 3, 3⟩, ⟨"IsEmptyLine", 5, 1⟩]).map
+        (fun d => (d.name, d.highlights.map (fun h => (h.line, h.col))))
+      = [("TOO_MANY_INSTR", [(1, 4)])] ∧ runsAfter "CheckManyInstructions" "IsAssignation" = true ∧
+        runsAfter "CheckManyInstructions" "IsComment" = false := by decide +kernel
 
 /- V82 end to end (a line wider than 80 columns ending in a newline token is reported, for every
 rule table) is `C03.long_line_reported`. -/
